@@ -185,6 +185,7 @@ def harnesses(tier):
         for k in ["f", "i", "T", "b"]:
             hs.append(Group("aggregate", [k], 3))
         hs.append(Group("aggregate", ["i", "b"], 3))
+        hs.append(Group("aggregate", ["i", "f"], 2))         # two numeric keys of different dtypes (int64 keys beyond 2**53 stay distinct)
         hs.append(Group("count", ["td"], 3)); hs.append(Group("count", ["ns"], 2))
         hs.append(Group("aggregate", ["i"], 2, interleave="count"))
         hs.append(Prepared(Group("count", ["T"], 2)))
